@@ -56,7 +56,7 @@ def r1(ctx, R):
             r = call_recv(c) or ""
             if r.endswith("formula"):
                 R.bad(f, c, "formula function invoked directly, bypassing the cache and the call stack")
-    R.need(len(sites) >= 3, "expected >=3 formula invocation sites, found %d" % len(sites))
+    R.need(len({f.qual for f, _ in sites}) >= 2, "expected formula invocation sites in >=2 functions, found %d" % len({f.qual for f, _ in sites}))
     for f, c in sites:
         R.inst("formula call in %s at %s" % (f.short, f.loc(c)))
         if f.name != "on_eval_formula":
@@ -206,7 +206,7 @@ def r2(ctx, R):
             R.bad(fi, c, "value stored under a key other than the one looked up")
     for r_ in q.returns(fi):
         R.inst("CellsImpl.on_eval_formula: returns the stored/computed value")
-        v = r_.value
+        v = q.origin(fi, r_.value)
         ok = isinstance(v, ast.Call) and (v in sts or v in formula_calls(fi))
         if not ok:
             R.bad(fi, r_, "on_eval_formula returns something other than the value just computed")
@@ -317,8 +317,9 @@ def r3(ctx, R):
     ba = ctx.func("node:_bind_args")
     R.inst("_bind_args returns tuple(arguments.values())")
     rr = q.returns(ba)
-    if not (len(rr) == 1 and isinstance(rr[0].value, ast.Call) and norm(rr[0].value.func) == "tuple"
-            and norm(rr[0].value.args[0]).endswith(".arguments.values()")):
+    rv = q.resolve(ba, rr[0].value) if len(rr) == 1 else None
+    if not (isinstance(rv, ast.Call) and norm(rv.func) == "tuple" and len(rv.args) == 1
+            and norm(rv.args[0]).endswith(".arguments.values()")):
         R.bad(ba, ba.node, "_bind_args does not return the tuple of bound argument values", stmt="return")
     # callers of eval_node
     n_callers = 0
@@ -438,6 +439,7 @@ def r4(ctx, R):
     repo = ctx.repo
     # (a)
     n_reads = 0
+    read_in = set()
     for f in repo.all_funcs(modules=["modelx.core"]):
         for n in walk_local(f.node):
             if isinstance(n, ast.Attribute) and n.attr == "altfunc" and isinstance(n.ctx, ast.Load) \
@@ -445,11 +447,12 @@ def r4(ctx, R):
                 inner = n.value
                 if inner.attr == "fresh" and isinstance(inner.value, ast.Attribute) and inner.value.attr == "altfunc":
                     n_reads += 1
+                    read_in.add(f.qual)
                     R.inst("read of inner function through .fresh in %s" % f.short)
                 elif inner.attr == "altfunc":
                     R.bad(f, n, "inner function of a BoundFunction read without `.fresh`: a formula may run "
                                 "over a stale namespace")
-    R.need(n_reads >= 3, "expected >=3 reads of altfunc.fresh.altfunc")
+    R.need(len(read_in) >= 2, "expected reads of altfunc.fresh.altfunc in >=2 functions")
     # (b)
     for spec in ("BoundFunction._refresh", "CellsBoundFunction._refresh"):
         fi = ctx.func(spec)
